@@ -743,6 +743,10 @@ class BaseProject(object, metaclass=ABCMeta):
             if step_time < len(self.cost_list):
                 self.cost_list.insert(step_time, 0.0)
                 inserted_step_num += 1
+                # the absence steps registered so far move with the log entries behind the inserted step
+                self.absence_time_list = [
+                    t + 1 if t >= step_time else t for t in self.absence_time_list
+                ]
 
         self.time = self.time + inserted_step_num
         self.absence_time_list.extend(new_absence_time_list)
